@@ -213,6 +213,75 @@ def _local_dict_copy(name, cls_name, reg, fnode):
     return fresh, inherited, deep
 
 
+def _alias_depths(fnode, cls_name, reg):
+    """{local name: depth} for locals that may refer to cls.<reg> (0), one of its values (1), an entry of a value (2) ..."""
+    alias = {}
+
+    def depth(e):
+        if A.is_attr(e, cls_name, reg):
+            return 0
+        if isinstance(e, ast.Name):
+            return alias.get(e.id)
+        if isinstance(e, ast.Subscript) and not isinstance(e.slice, ast.Slice):
+            d = depth(e.value)
+            return None if d is None else d + 1
+        if isinstance(e, ast.Call) and isinstance(e.func, ast.Attribute) and e.func.attr in ('get', 'setdefault', 'pop', '__getitem__'):
+            d = depth(e.func.value)
+            return None if d is None else d + 1
+        if isinstance(e, ast.IfExp):
+            ds = [x for x in (depth(e.body), depth(e.orelse)) if x is not None]
+            return min(ds) if ds else None
+        if isinstance(e, ast.BoolOp):
+            ds = [x for x in map(depth, e.values) if x is not None]
+            return min(ds) if ds else None
+        return None
+
+    def elem_depth(it):
+        """depth of what iterating `it` yields (None: not part of the registry), and the position for tuple targets."""
+        if isinstance(it, ast.Call) and isinstance(it.func, ast.Attribute) and not it.args:
+            d = depth(it.func.value)
+            if d is not None and it.func.attr == 'values':
+                return d + 1, None
+            if d is not None and it.func.attr == 'items':
+                return d + 1, 1
+            if d is not None and it.func.attr == 'keys':
+                return None, None
+        if isinstance(it, ast.Call) and norm(it.func) in ('reversed', 'iter', 'list', 'tuple', 'sorted') and len(it.args) == 1:
+            return elem_depth(it.args[0])
+        if isinstance(it, ast.Call) and norm(it.func) == 'enumerate' and it.args:
+            d, pos = elem_depth(it.args[0])
+            return (d, 1) if d is not None and pos is None else (None, None)
+        d = depth(it)
+        if d is not None and d >= 1:
+            return d + 1, None          # iterating a value (a list) yields its entries
+        return None, None
+
+    def bind(t, d):
+        if isinstance(t, ast.Name) and d is not None and alias.get(t.id, 99) > d:
+            alias[t.id] = d
+            return True
+        return False
+    changed = True
+    while changed:
+        changed = False
+        for n in walk_function(fnode):
+            if isinstance(n, ast.Assign):
+                d = depth(n.value)
+                for t in n.targets:
+                    changed |= bind(t, d)
+            elif isinstance(n, ast.NamedExpr):
+                changed |= bind(n.target, depth(n.value))
+            elif isinstance(n, (ast.For, ast.comprehension)):
+                d, pos = elem_depth(n.iter)
+                if d is None:
+                    continue
+                if pos is None:
+                    changed |= bind(n.target, d)
+                elif isinstance(n.target, (ast.Tuple, ast.List)) and pos < len(n.target.elts):
+                    changed |= bind(n.target.elts[pos], d)
+    return alias
+
+
 def check_cow(repo, writer):
     f = writer.func
     reg = writer.registry.name
@@ -222,23 +291,26 @@ def check_cow(repo, writer):
                                 '%s writes the class registry %s but is not a classmethod' % (f.qualname, reg)))
     cls_name = f.params[0]
     muts = [m for m in A.find_mutations(fnode) if A.is_attr(m.root, cls_name, reg)]
-    # local aliases of cls.R that are mutated: x = cls.R ; x[k] = v
-    alias = set()
-    for n in walk_function(fnode):
-        if isinstance(n, ast.Assign) and A.is_attr(n.value, cls_name, reg):
-            for t in n.targets:
-                if isinstance(t, ast.Name):
-                    alias.add(t.id)
+    # local aliases of cls.R or of something inside it: x = cls.R ; v = cls.R.setdefault(k, []) ; for e in v: ...  Each alias
+    # has a depth: 0 the table, 1 one of its values (for the implicit resolvers: the list of a first character), 2 an entry
+    # of such a value, ...  A mutation through an alias at depth d is a mutation of cls.R at depth d + (its own depth).
+    alias = _alias_depths(fnode, cls_name, reg)
+    alias_depth_of = {}
     for m in A.find_mutations(fnode):
         if isinstance(m.root, ast.Name) and m.root.id in alias and m.kind != 'rebind':
+            alias_depth_of[id(m)] = alias[m.root.id]
             muts.append(m)
     rebinds = [m for m in muts if m.kind == 'rebind']
     writes = [m for m in muts if m.kind != 'rebind']
     writer.mutations = writes
-    writer.needs_deep = any(m.depth >= 1 and m.kind.startswith('call:') and
-                            m.kind[5:] in ('append', 'extend', 'insert', 'remove', 'pop', 'clear', 'sort',
-                                           'reverse', 'add', 'update', 'discard')
-                            for m in writes) or any(m.depth >= 1 and m.kind in ('setitem', 'delitem') for m in writes)
+    LISTOPS = ('append', 'extend', 'insert', 'remove', 'pop', 'clear', 'sort', 'reverse', 'add', 'update', 'discard')
+
+    def total_depth(m):
+        return m.depth + alias_depth_of.get(id(m), 0)
+    writer.needs_deep = any(total_depth(m) >= 1 and m.kind.startswith('call:') and m.kind[5:] in LISTOPS for m in writes) \
+        or any(total_depth(m) >= 1 and m.kind in ('setitem', 'delitem') for m in writes)
+    entry_muts = [m for m in writes if total_depth(m) >= 2 and
+                  ((m.kind.startswith('call:') and m.kind[5:] in LISTOPS) or m.kind in ('setitem', 'delitem', 'augassign'))]
     cfg = CFG(fnode)
     good_rebind_nodes = []
     all_deep = True
@@ -284,6 +356,15 @@ def check_cow(repo, writer):
             'shallow-copy|' + reg, rebinds[0].stmt if rebinds else fnode,
             '%s copies cls.%s shallowly but then mutates its value lists in place: the lists stay '
             'shared with the base class' % (f.qualname, reg)))
+    if entry_muts and not all(isinstance(rb.stmt, ast.Assign) and isinstance(rb.stmt.value, ast.Call)
+                              and norm(rb.stmt.value.func) == 'copy.deepcopy' for rb in rebinds if rb.stmt is not None):
+        m = entry_muts[0]
+        writer.problems.append((
+            'entry-mutated|' + reg, m.stmt,
+            '%s changes an entry of a value of cls.%s in place (%s): the first-write copy duplicates the table and its value lists, '
+            'not the entries, so the entry is the one shared with the base class and with every class that copied it before'
+            % (f.qualname, reg, norm(m.stmt).split('\n')[0][:60])))
+        cow = False
     writer.cow = cow and any_copy or (cow and not writes)
     writer.deep = all_deep
     # parameter roles (key / value) from the first direct store
@@ -385,7 +466,7 @@ class Heap:
             self.own[(cls.qualname, reg)] = new
             o = cls
         tbl = self.own[(o.qualname, reg)]
-        if writer.needs_deep:
+        if writer.needs_deep or isinstance(key, list):
             keys = key if isinstance(key, list) else [key]
             for k in keys:
                 tbl.setdefault(k, []).append(value)
